@@ -60,9 +60,11 @@ def parseBool : Val → Option Bool
 def implToks (impl : String) : List Val := ((impl.splitOn " ").filter (· ≠ "")).map parseTok
 
 /-- conservation on a send outcome; `none` = holds -/
-def sendSpec (fill peer : Nat) (r : Bool) (got rem : List Int) : Option String :=
+def sendSpec (blocking : Bool) (fill peer : Nat) (r : Bool) (got rem : List Int) : Option String :=
   let all := got ++ rem
-  if all.count 99 ≠ (if r then 1 else 0) then
+  -- "a non-positive timeout means wait without limit" (likewise a context that is never cancelled): such a call cannot give up
+  if blocking ∧ r = false then some "gave-up-without-a-limit"
+  else if all.count 99 ≠ (if r then 1 else 0) then
     some (if r then "true-but-99-not-exactly-once" else "false-but-99-present")
   else if all.filter (· ≠ 99) ≠ fillList fill then some "prefilled-lost-or-reordered"
   else if all ≠ fillList fill ++ (if r then [99] else []) then some "fifo"
@@ -70,9 +72,11 @@ def sendSpec (fill peer : Nat) (r : Bool) (got rem : List Int) : Option String :
   else none
 
 /-- conservation on a receive outcome; `none` = holds -/
-def recvSpec (fill : Nat) (closed : Bool) (peer : Nat) (v : Int) (ok : Bool) (rem : List Int) : Option String :=
+def recvSpec (blocking : Bool) (fill : Nat) (closed : Bool) (peer : Nat) (v : Int) (ok : Bool) (rem : List Int) : Option String :=
   let expected := fillList fill ++ (if peer = 1 ∧ closed = false then [77] else [])
-  if ok then
+  -- without a limit the only legitimate `false` is a closed and drained channel
+  if blocking ∧ ok = false ∧ ¬ (closed = true ∧ fill = 0) then some "gave-up-without-a-limit"
+  else if ok then
     if expected.head? ≠ some v then some "true-but-not-the-head"
     else if v :: rem ≠ expected then some "fifo"
     else none
@@ -109,7 +113,7 @@ def sendLine (op : String) (mode : Mode) (blocking : Bool) (cap fill peer : Nat)
   | [b, g, r] =>
     match parseBool b, g.ints?, r.ints? with
     | some rb, some got, some rem =>
-      verdict impl allowed (sendSpec fill peer rb got rem) (base ++ [op ++ "." ++ boolStr rb])
+      verdict impl allowed (sendSpec blocking fill peer rb got rem) (base ++ [op ++ "." ++ boolStr rb])
     | _, _, _ => verdict impl allowed (some "unparseable-result") base
   | _ => verdict impl allowed (some "unparseable-result") base
 
@@ -126,7 +130,7 @@ def recvLine (op : String) (mode : Mode) (blocking : Bool) (cap fill : Nat) (clo
   | [v, b, r] =>
     match v.int?, parseBool b, r.ints? with
     | some vi, some ok, some rem =>
-      verdict impl allowed (recvSpec fill closed peer vi ok rem) (base ++ [op ++ "." ++ boolStr ok])
+      verdict impl allowed (recvSpec blocking fill closed peer vi ok rem) (base ++ [op ++ "." ++ boolStr ok])
     | _, _, _ => verdict impl allowed (some "unparseable-result") base
   | _ => verdict impl allowed (some "unparseable-result") base
 
